@@ -318,17 +318,26 @@ func main() {
 			emit("wf-sampled", vs, r.Intn(1<<(k/2)), r.Perm(k), []string{"ECOSYSTEM", "SEMVER", "ECOSYSTEM", "GIT"}[r.Intn(4)])
 		}
 		// random multi-range, multi-entry records (well-formed ranges)
-		others := []string{"npm", "Maven", "PyPI", "Go", "crates.io"}
+		others := []string{"npm", "Maven", "PyPI", "Go", "crates.io", "NPM", "maven", "pypi", "Maven:central", "npm ", "PyPI:"}
+		// package names that differ only in case or separators: a record for one must never match another
+		// (records are matched by exact ecosystem and exact name)
+		nearNames := []string{"pkg", "Pkg", "PKG", "p-kg", "p_kg", "p.kg", "pkg-", "lodash.merge", "lodash-merge", "lodash_merge", "Lodash.Merge", "JSONStream", "jsonstream", "org.ex:lib", "org.ex:Lib", "org-ex:lib"}
 		for n := 0; n < *random; n++ {
-			c := &vcase{Stream: "wf-random-multi", Eco: e.name, QName: "pkg", Queries: queries, WF: true}
+			qname := "pkg"
+			if r.Intn(3) == 0 {
+				qname = nearNames[r.Intn(len(nearNames))]
+			}
+			c := &vcase{Stream: "wf-random-multi", Eco: e.name, QName: qname, Queries: queries, WF: true}
 			na := 1 + r.Intn(3)
 			for a := 0; a < na; a++ {
-				en := aff{Eco: e.name, Name: "pkg"}
-				switch r.Intn(6) {
+				en := aff{Eco: e.name, Name: qname}
+				switch r.Intn(8) {
 				case 0:
 					en.Name = "other"
 				case 1:
 					en.Eco = others[r.Intn(len(others))]
+				case 2, 3:
+					en.Name = nearNames[r.Intn(len(nearNames))]
 				}
 				if r.Intn(3) == 0 {
 					for j := 0; j < 1+r.Intn(2); j++ {
